@@ -126,6 +126,15 @@ func (e *Exchange) Calls() []*UpCall {
 	return append([]*UpCall(nil), e.Up...)
 }
 
+// Finished reports, under the exchange's lock, whether call c has returned
+// and with which context error (a background call may still be in flight while
+// a monitor looks at the exchange).
+func (e *Exchange) Finished(c *UpCall) (done bool, ctxErr string, reply *Reply) {
+	e.mu.Lock()
+	defer e.mu.Unlock()
+	return !c.Exit.IsZero(), c.CtxErr, c.Reply
+}
+
 // Foreground calls only.
 func (e *Exchange) FgCalls() []*UpCall {
 	var out []*UpCall
